@@ -25,7 +25,7 @@ class C07(Prop):
     campaigns = {"quick": [("sampled", 16000, 60), ("enumerated", 1500, 60), ("known:falsy_operand", 3000, 40)],
                  "thorough": [("sampled", 1200000, 1500), ("enumerated", 80000, 1500),
                               ("known:falsy_operand", 60000, 400)]}
-    chunk = 50
+    chunk = 20
     rule = ("single-variable `an` queries (let(T, stream) / T(From(stream)) / T(From(stream), f=v), mixed-type streams, "
             "condition trees over that variable) whose domain is a simulator-owned one-shot generator, one-shot "
             "iterator object or re-iterable logging collection; histories of 1-4 evaluations each taking k results then "
@@ -132,7 +132,7 @@ class C07(Prop):
         sigs = []
         for k1 in range(0, R + 1):
             for how in ("close", "drop"):
-                seconds = [None] + (list(range(0, R + 1)) if pairs else [])
+                seconds = [None] + (list(range(0, min(R, 12) + 1)) if pairs else [])
                 for k2 in seconds:
                     ops = [["eval", k1, how]]
                     if k2 is not None:
